@@ -40,6 +40,9 @@ fn layering(bad: &mut Vec<(String, String)>, evaluated: &mut u64) {
         Doc { path: "zz/", account: Some("A:zz"), operator: Some("O:zz"), rule_account: Some("R:zz") },
         Doc { path: "2024", account: Some("A:2024"), operator: None, rule_account: Some("R:2024") },
         Doc { path: "savings/", account: Some("A:savings"), operator: None, rule_account: Some("R:savings") },
+        // ties: the same length as "okane/" (document order decides), and the very same path twice
+        Doc { path: "/2024.", account: Some("A:tie"), operator: Some("O:tie"), rule_account: Some("R:tie") },
+        Doc { path: "okane/", account: Some("A:okane2"), operator: None, rule_account: Some("R:okane2") },
     ];
     let files = ["/bank/okane/checking/2024.csv", "/okane/checking/202109.csv", "/bank/savings/x.csv", "/zz/bank/2024/okane/f.csv", "/other/file.csv"];
     // every ordered selection of up to 3 pool documents, written after the base document
